@@ -37,6 +37,16 @@ try:
 except Exception:
     raise
 
+# C06 = retry/termination oracles over event histories (EX-A) + termination under the event thread (EX-B)
+try:
+    from vflib import plans_exb as _pb6
+    if 'C06' in PLANS and not any(j['name'].startswith('c06-eventthread') for j in PLANS['C06']['jobs']):
+        PLANS['C06']['jobs'] = list(PLANS['C06']['jobs']) + _pb6.C06_JOBS
+        PLANS['C06']['targets'] = list(PLANS['C06']['targets']) + ['bin/exb_asan']
+        PLANS['C06']['rule'] += '; event-thread part (two programs): ' + _pb6.RULE
+except Exception:
+    raise
+
 # C07 = hint/timer oracles over event histories (EX-A) + event-thread liveness on every back end (EX-B)
 try:
     from vflib import plans_exb as _pb
